@@ -9,6 +9,9 @@
 //	       both parties' results equal each other and Circuit.Compute.
 //	compiled: compiled MPCL programs (struct / array arguments), real OTs.
 //	shared: overlapping sessions on one shared *circuit.Circuit value.
+//	repr:  every session class with inputs in the representations the API
+//	       accepts: text through IOArg.Parse and *big.Int values of any sign
+//	       and magnitude (repr.go); `replay <file>` re-runs one such case.
 //	conn:  sessions whose byte volume crosses the p2p.Conn buffer sizes
 //	       (64 KiB write buffer, 1 MiB read buffer) with every OT, over a
 //	       fragmenting / delaying transport (conn.go, transport.go); compared
@@ -33,7 +36,7 @@ import (
 
 func main() {
 	if len(os.Args) < 2 {
-		fmt.Fprintln(os.Stderr, "usage: c02 ideal|real|compiled|shared|conn [flags]")
+		fmt.Fprintln(os.Stderr, "usage: c02 ideal|real|compiled|shared|conn|repr [flags] | replay <file>")
 		os.Exit(2)
 	}
 	switch os.Args[1] {
@@ -47,6 +50,10 @@ func main() {
 		os.Exit(shared(os.Args[2:]))
 	case "conn":
 		os.Exit(connMode(os.Args[2:]))
+	case "repr":
+		os.Exit(reprMode(os.Args[2:]))
+	case "replay":
+		os.Exit(replayMode(os.Args[2:]))
 	default:
 		fmt.Fprintf(os.Stderr, "unknown mode %q\n", os.Args[1])
 		os.Exit(2)
